@@ -103,18 +103,59 @@ rep('''		parts, err := hs[node].GetPartitions(curator)
 			op.R1 = int64(np*uint64(core.MaxBlobKey) - free - np)
 			op.ListOK = true
 		}''')
-rep('''		c, err := hs[node].Lookup(core.PartitionID(op.R1))
-		switch err {
-		case core.NoError:
-			op.Out, op.Found = mOk, c == curator
-		case core.ErrNoSuchBlob:
-			op.Out, op.Found = mOk, false
-		default:''', '''		txn, err := hs[node].LinearizableReadOnlyTxn()
-		switch err {
-		case core.NoError:
-			op.Out, op.Found = mOk, txn.GetBlob(core.BlobIDFromParts(part, core.BlobKey(op.R1))) != nil
-			txn.Commit()
-		default:''')
+import re
+m = re.search(r"\t\t//ELEMREADS-BEGIN\n.*?\t\t//ELEMREADS-END\n", s, re.S)
+assert m
+s = s[:m.start()] + '''		//ELEMREADS-BEGIN (curator: every entry point that goes through LinearizableReadOnlyTxn / readOK and answers about one blob)
+		{"lineartxn_getblob", func(h *StateHandler, p int64) (bool, bool, core.Error) {
+			txn, err := h.LinearizableReadOnlyTxn()
+			if err != core.NoError {
+				return false, false, err
+			}
+			defer txn.Commit()
+			return true, txn.GetBlob(core.BlobIDFromParts(part, core.BlobKey(p))) != nil, core.NoError
+		}},
+		{"stat", func(h *StateHandler, p int64) (bool, bool, core.Error) {
+			switch _, err := h.Stat(core.BlobIDFromParts(part, core.BlobKey(p))); err {
+			case core.NoError:
+				return true, true, core.NoError
+			case core.ErrNoSuchBlob:
+				return true, false, core.NoError
+			default:
+				return false, false, err
+			}
+		}},
+		{"gettracts", func(h *StateHandler, p int64) (bool, bool, core.Error) {
+			switch _, _, err := h.GetTracts(core.BlobIDFromParts(part, core.BlobKey(p)), 0, 0); err {
+			case core.NoError:
+				return true, true, core.NoError
+			case core.ErrNoSuchBlob:
+				return true, false, core.NoError
+			default:
+				return false, false, err
+			}
+		}},
+		{"listblobs", func(h *StateHandler, p int64) (bool, bool, core.Error) {
+			keys, err := h.ListBlobs(part, core.BlobKey(p))
+			if err != core.NoError {
+				return false, false, err
+			}
+			return true, len(keys) > 0 && int64(keys[0]) == p, core.NoError
+		}},
+		{"checkforgarbage", func(h *StateHandler, p int64) (bool, bool, core.Error) {
+			// CheckForGarbage has no error result: (nil, nil) means "failed" as well as "nothing to collect". Only a
+			// positive "gone" verdict is an answer - and it must never name a tract of a blob whose creation was acknowledged.
+			tid := core.TractID{Blob: core.BlobIDFromParts(part, core.BlobKey(p)), Index: 0}
+			_, gone := h.CheckForGarbage(core.TractserverID(1), []core.TractID{tid})
+			for _, g := range gone {
+				if g == tid {
+					return true, false, core.NoError
+				}
+			}
+			return false, false, core.NoError
+		}},
+		//ELEMREADS-END
+''' + s[m.end():]
 rep('''			h.lock.Lock()
 			counts[i] = int64(len(h.state.Partitions) - 1)
 			h.lock.Unlock()''', '''			counts[i] = countOf(h)''')
